@@ -263,6 +263,13 @@ func (x *Exec) oblige(st *State, kind, label string, goal *Term, desc string, po
 	if st.dead {
 		return
 	}
+	// a conjunction is discharged conjunct by conjunct (smaller queries); the pieces keep the obligation's name
+	if goal.Op == "and" && len(goal.Bound) == 0 && len(goal.Args) > 1 && kind != "cover" {
+		for _, g := range goal.Args {
+			x.oblige(st, kind, label, g, desc, pos)
+		}
+		return
+	}
 	name := x.key + "#" + kind
 	if label != "" {
 		name += ":" + label
